@@ -2083,9 +2083,9 @@ fn main() {
     let small = small_tables(thorough);
     let has_a = |t: &Vec<SpecD>| t.iter().any(|s| s.short == Some('a'));
     for t in &small {
-        // thorough: length 5 for the tables with `a`, length 4 for those without; quick: 4 with `b`, 3 without
+        // thorough: length 5 for the tables with `a` and `b`, length 4 for the others; quick: 4 with `b`, 3 without
         let has_b = t.iter().any(|s| s.short == Some('b'));
-        let maxlen = if thorough { if has_a(t) { 5 } else { 4 } } else if has_b { 4 } else { 3 };
+        let maxlen = if thorough { if has_a(t) && has_b { 5 } else { 4 } } else if has_b { 4 } else { 3 };
         enumerate(&mut e, "111", &show_specs(t), maxlen);
     }
     // portable mode and the three single-extension modes on shorter vectors
